@@ -188,7 +188,7 @@ def vcurve(rep: Report, s: Smoother, p: Optional[str]):
         if len(blocks) != 1:
             ob("R-SIBLING(final-solve)", "the band is produced by one reweighting block at the reported lambda", False, f"{len(blocks)} blocks after the sweep", "final IRLS")
         else:
-            fin = check_irls(rep, s, blocks[0], p, "band at the reported lambda", want_start=("reset",), lam=lam)
+            fin = check_irls(rep, s, blocks[0], p, "band at the reported lambda", want_start=("reset", "zeros"), lam=lam)
             if fin is not None and s.k.kind == "guvectorize":
                 check_round(rep, s, fin.target, [f"lt0[-1*{s.mask['count']} + 1]"])
             elif fin is not None:
